@@ -27,6 +27,9 @@ func init() {
 		Mutant{Name: "probe-C19b-bypass-id-taken-from-existing-mapping", File: "internal/metadata/dbv2.go", Rule: "C19-R5",
 			Old: "		if resp.IsCreated() {\n			created, _ := resp.AsCreated()\n			db.lastMappingIDToInsert = created.Id\n		}",
 			New: "		if resp.IsCreated() {\n			created, _ := resp.AsCreated()\n			db.lastMappingIDToInsert = created.Id\n		} else if found, ok := resp.AsGetMappingResponse(); ok {\n			db.lastMappingIDToInsert = found.Id\n		}"},
+		Mutant{Name: "probe-C19d-reset-keeps-old-reference-time", File: "internal/metadata/dbv2.go", Rule: "C19-R7",
+			Old: "\"INSERT OR REPLACE INTO flood_limits (last_time_update, count_free, metric_name) VALUES ($t, $c, $name)\",\n				sqlite.Int64(\"$t\", db.now().Unix()),",
+			New: "\"INSERT INTO flood_limits (last_time_update, count_free, metric_name) VALUES ($t, $c, $name) ON CONFLICT (metric_name) DO UPDATE SET count_free = excluded.count_free\",\n				sqlite.Int64(\"$t\", db.now().Unix()),"},
 		Mutant{Name: "probe-C19c-flood-limit-update-keeps-old-time", File: "internal/metadata/binlog_event.go", Rule: "C19-R6", Occurrence: 1,
 			Old: "			sqlite.Int64(\"$t\", int64(pred)),", New: "			sqlite.Int64(\"$t\", int64(timeUpdate)),"})
 }
@@ -180,5 +183,39 @@ func runC19Probe(c *core.Check) {
 		}
 		c.Require(len(vals) == 1, "C19-R6", "internal/metadata.getOrCreateMapping/bind:$t", fn.Pos(), "UPDATE and INSERT store the same time",
 			fmt.Sprintf("the flood-limit statements store different times %v: an UPDATE that keeps the old time credits the bonus of the same elapsed step again on every request", core.SortedKeys(vals)))
+	}
+	// R7: budget and its reference time are written together. Keyed by function and statement
+	// ordinal so that it is independent of the F7 known-finding sites (which are keyed by Exec call).
+	c.Rule("C19-R7", "K11 embedded-SQL shape + K6 co-update", 4, "every INSERT/UPDATE on flood_limits in package metadata parses and writes both count_free and last_time_update")
+	n = 0
+	for _, fn := range c.Prog.FuncsIn("internal/metadata") {
+		k := 0
+		for _, s := range core.SQLSites(fn) {
+			if !strings.Contains(strings.ToLower(s.SQL), "flood_limits") {
+				continue
+			}
+			if s.Stmt != nil && (!s.Stmt.IsWrite() || s.Stmt.Verb == "DELETE" || strings.HasPrefix(s.Stmt.Verb, "CREATE")) {
+				continue
+			}
+			k++
+			n++
+			site := fmt.Sprintf("%s/flood_limits-write#%d", core.FuncName(fn), k)
+			if s.Stmt == nil {
+				c.Undecided("C19-R7", site, s.Pos(), fmt.Sprintf("statement on flood_limits is not modelled (%v): cannot show that budget and time are written together", s.ParseErr))
+				continue
+			}
+			cols := map[string]bool{}
+			for _, col := range s.Stmt.InsertCols() {
+				cols[strings.ToLower(col)] = true
+			}
+			for _, col := range s.Stmt.SetCols() {
+				cols[strings.ToLower(col)] = true
+			}
+			c.Require(cols["count_free"] && cols["last_time_update"], "C19-R7", site, s.Pos(), "budget and reference time written together",
+				"the statement `"+s.Stmt.Shape()+"` writes only one of count_free / last_time_update: the next request computes the bonus from a reference time that does not belong to the stored budget (steps before a reset are credited again, or elapsed steps are lost)")
+		}
+	}
+	if n == 0 {
+		c.Undecided("C19-R7", "internal/metadata/flood_limits", 0, "no write statement on flood_limits found")
 	}
 }
